@@ -782,13 +782,15 @@ class RefResolver(object):
                 a URI fragment to resolve within it
         """
 
-        if fragment.startswith(u"/"):
+        # The fragment is percent-decoded as a whole first (RFC 6901,
+        # section 6), so an encoded slash is a separator like any other.
+        pointer = unquote(fragment)
+        if pointer.startswith(u"/"):
             # Exactly one slash introduces the first reference token
             # (which may itself be empty).
-            fragment = fragment[1:]
-            parts = unquote(fragment).split(u"/")
+            parts = pointer[1:].split(u"/")
         else:
-            parts = unquote(fragment).split(u"/") if fragment else []
+            parts = pointer.split(u"/") if pointer else []
 
         for part in parts:
             part = part.replace(u"~1", u"/").replace(u"~0", u"~")
